@@ -172,5 +172,45 @@ def c02symm (ab ba : CmpObs) : Verdict :=
   check (ab.eq == ba.eq && ab.lt == ba.gt && ab.gt == ba.lt && ab.le == ba.ge && ab.ge == ba.le
     && ab.pc == flipOrd ba.pc) "answers depend on operand order"
 
+/-- C04: error bound of a derived product/quotient.  `pa` = exact product (quotient) of the
+operand amounts, `ps` = exact product (quotient) of the operand unit scales, `sw` = scale of
+the unit the result carries.  Covers both branches of the generated operator body. -/
+def derivedBound (pa ps sw : Rat) : Rat :=
+  let P := ratAbs pa + M.E pa
+  let S := ratAbs ps + M.E ps
+  let X := P * S + M.E (P * S)
+  ratAbs sw * M.E (X / sw) + M.E (P * S) + P * M.E ps + ratAbs ps * M.E pa
+
+def derivedSafe (pa ps sw : Rat) : Bool :=
+  let P := ratAbs pa + M.E pa
+  let S := ratAbs ps + M.E ps
+  let X := P * S + M.E (P * S)
+  M.safe P && M.safe S && M.safe X && M.safe (X / sw + M.E (X / sw))
+
+/-- C04: the result `(w, z)` of `l ⊗ r` has reference-unit magnitude `z·s_w` within
+`derivedBound` of the exact product/quotient of the operands' magnitudes. -/
+def c04 (pa ps : Option Rat) (sw z : Option Rat) : Verdict :=
+  match pa, ps, sw with
+  | some pa, some ps, some sw =>
+    if sw = 0 then .skip "zero scale"
+    else if !(derivedSafe M pa ps sw) then .skip "out of range"
+    else match z with
+      | none => .fail "finite in-range operands gave a non-finite derived result"
+      | some z =>
+        check (ratAbs (z * sw - pa * ps) ≤ derivedBound M pa ps sw)
+          "magnitude of the derived result outside the rounding bound"
+  | _, _, _ => .skip "non-finite operand"
+
+/-- C05 (tolerant form evaluated on implementation outputs): the unit `w` of a fitted
+result with reference-unit magnitude `mag` is eligible, no larger eligible unit fits
+below `mag` (by more than `tol`), and unless `w` is the smallest eligible unit its own
+scale does not exceed `mag` (by more than `tol`).  `elig` = scales of the eligible units. -/
+def c05fit (eligScales : List Rat) (wElig : Bool) (sw mag tol : Rat) : Verdict :=
+  (check wElig "result unit is not an eligible unit of the result quantity").and <|
+  (check (eligScales.all (fun s => !(sw < s && s ≤ mag - tol)))
+    "a larger eligible unit also fits below the result magnitude").and <|
+  check (eligScales.all (fun s => sw ≤ s) || sw ≤ mag + tol)
+    "result unit exceeds the magnitude although a smaller eligible unit exists"
+
 end Oracle
 end Qty
